@@ -17,7 +17,7 @@ for ln in open(f'/tmp/confirm_{id_}.log').read().splitlines():
     demo = open(f'{src}/demo{n}.py').read().replace(f'/tmp/wt/{id_}', '@WORKTREE@').replace(f'/tmp/seed_out/{id_}', '@HERE@')
     open(f'{dst}/demo.py','w').write(demo)
     meta = json.load(open(f'{src}/meta{n}.json'))
-    meta = {'property': pid, 'id': f'{id_}-{n}', 'round': {'b': 2, 'c': 3, 'd': 4, 'e': 5, 'f': 6, 'g': 7, 'h': 8, 'i': 9, 'j': 10, 'k': 11}.get(id_[3:4], 2),
+    meta = {'property': pid, 'id': f'{id_}-{n}', 'round': {'b': 2, 'c': 3, 'd': 4, 'e': 5, 'f': 6, 'g': 7, 'h': 8, 'i': 9, 'j': 10, 'k': 11, 'l': 12}.get(id_[3:4], 2),
             'origin': 'independent sub-agent given only the property text, a list of earlier change summaries to avoid, and a scratch worktree',
             'summary': meta.get('summary'), 'breaks': meta.get('breaks'), 'needs_to_manifest': meta.get('needs_to_manifest'),
             'files': [f for f in files.split(',') if f],
